@@ -49,6 +49,10 @@ type mCall struct {
 	progressive bool // caller may still send further chunks
 	recvProgress bool // the INVOCATION told the callee that progress is wanted
 	hadTimeout  bool
+	// answered: the callee answered finally while the caller was still streaming
+	// chunks of a progressive call invocation. The caller has its one final
+	// reply; nothing more may reach it for this request whatever the callee does.
+	answered bool
 }
 
 type dealerPart struct {
@@ -142,6 +146,9 @@ func (d *dealerPart) Ignore(w *World, s int, m wamp.Message) bool {
 			}
 		}
 	case *wamp.Invocation:
+		if d.greyInv[ck{s, m.Request}] {
+			return true // a further chunk of a call the model gave up on
+		}
 		if d.greyParty[s] {
 			if _, live := d.invs[ck{s, m.Request}]; !live && !d.usedInv[s][m.Request] {
 				return true
@@ -171,6 +178,15 @@ func (d *dealerPart) markGrey(w *World, c *mCall, why string) {
 	d.greyInv[ck{c.callee, c.inv}] = true
 	d.finish(c, false)
 	w.st.Label("grey:" + why)
+}
+
+func containsInt(xs []int, v int) bool {
+	for _, x := range xs {
+		if x == v {
+			return true
+		}
+	}
+	return false
 }
 
 func isCallError(x wamp.Message, req wamp.ID, uri wamp.URI) bool {
@@ -235,6 +251,11 @@ func (d *dealerPart) OnEnded(w *World, st *StepRec, idx int, exp Exp) {
 	sort.Slice(served, func(i, j int) bool { return served[i].inv < served[j].inv })
 	for _, c := range served {
 		c := c
+		if c.answered {
+			// already answered finally: the caller gets nothing more
+			d.finish(c, false)
+			continue
+		}
 		c.events++
 		w.st.Label("nt05")
 		if w.sess[c.caller].live() {
@@ -393,6 +414,10 @@ func (d *dealerPart) OnSent(w *World, st *StepRec, sr sentRec, exp Exp) *Violati
 			w.st.Label("cancel_no_such_call")
 			return nil
 		}
+		if c.answered {
+			d.markGrey(w, c, "cancel_after_final_result_of_streaming_call")
+			return nil
+		}
 		if c.killPending {
 			w.st.Label("cancel_repeated")
 			return nil
@@ -455,6 +480,19 @@ func (d *dealerPart) OnSent(w *World, st *StepRec, sr sentRec, exp Exp) *Violati
 		}
 		if _, ppt := m.Options["ppt_scheme"]; ppt {
 			d.markGrey(w, c, "ppt_yield")
+			return nil
+		}
+		if c.answered {
+			// duplicate answer of the callee: nothing anywhere (an INTERRUPT back to a
+			// progressive yield is tolerated)
+			w.st.Label("yield_after_final_answer_of_streaming_call")
+			if progress {
+				inv := m.Request
+				exp.may(sr.S, "INTERRUPT for a progressive yield after the final one", func(x wamp.Message) bool {
+					i, ok := x.(*wamp.Interrupt)
+					return ok && i.Request == inv
+				})
+			}
 			return nil
 		}
 		req := c.req
@@ -530,9 +568,12 @@ func (d *dealerPart) OnSent(w *World, st *StepRec, sr sentRec, exp Exp) *Violati
 		})
 		d.finalDue[ck{c.caller, req}]++
 		if c.progressive {
-			// the caller is still streaming chunks: the statement does not say
-			// what happens to them (D21 area)
-			d.markGrey(w, c, "final_yield_while_caller_streams")
+			// the caller is still streaming chunks: it has its final reply now; what
+			// the router does with chunks still to come is not stated, but no second
+			// final reply may follow
+			c.answered = true
+			c.deadline = 0
+			w.st.Label("final_yield_while_caller_streams")
 			return nil
 		}
 		d.finish(c, false)
@@ -544,6 +585,10 @@ func (d *dealerPart) OnSent(w *World, st *StepRec, sr sentRec, exp Exp) *Violati
 		c := d.invs[key]
 		if c == nil {
 			w.st.Label("error_unknown_invocation")
+			return nil
+		}
+		if c.answered {
+			w.st.Label("error_after_final_answer_of_streaming_call")
 			return nil
 		}
 		req := c.req
@@ -685,11 +730,47 @@ func (d *dealerPart) onCallMsg(w *World, st *StepRec, s int, realm string, rc *R
 		return nil
 	}
 	isProgressChunk, _ := m.Options["progress"].(bool)
+	if d.greyReq[ck{s, req}] && d.calls[ck{s, req}] == nil {
+		// a request id the model gave up on earlier (a chunk sent after the final
+		// result, after a kill-mode cancel ...) is used again: outside every statement
+		for _, r := range d.resolve(realm, proc) {
+			r.rrLast = -1
+			for _, x := range r.members {
+				d.greyParty[x] = true
+			}
+		}
+		w.st.Label("grey:call_on_abandoned_request_id")
+		return nil
+	}
 	if existing := d.calls[ck{s, req}]; existing != nil {
 		if !existing.progressive {
 			// reuse of a live request id: outside every statement
 			d.markGrey(w, existing, "request_id_reused")
 			return nil
+		}
+		if existing.answered {
+			// a chunk sent after the call was answered finally: outside the statement
+			d.markGrey(w, existing, "chunk_after_final_result")
+			return nil
+		}
+		if r := d.byID[idKey(realm, existing.reg.id)]; r == nil || !containsInt(r.members, existing.callee) {
+			// The callee has unregistered the procedure while it serves this call. Whether
+			// the chunk still reaches it is not stated; if the router refuses the chunk
+			// with an ERROR, that is the call's one final reply.
+			w.st.Label("chunk_after_unregister")
+			for _, x := range st.Recv[s] {
+				if isCallError(x, req, "") {
+					exp.must(s, fmt.Sprintf("ERROR{CALL req=%d} refusing a chunk", req), func(x wamp.Message) bool { return isCallError(x, req, "") })
+					inv := existing.inv
+					exp.may(existing.callee, "INTERRUPT (call ended by the router)", func(x wamp.Message) bool {
+						i, ok := x.(*wamp.Interrupt)
+						return ok && i.Request == inv
+					})
+					d.finalDue[ck{s, req}]++
+					d.finish(existing, true)
+					return nil
+				}
+			}
 		}
 		// next chunk of a progressive call: same callee, same invocation id
 		inv, callee := existing.inv, existing.callee
@@ -713,6 +794,13 @@ func (d *dealerPart) onCallMsg(w *World, st *StepRec, s int, realm string, rc *R
 		w.st.Label("call_unroutable:" + why)
 		exp.must(s, fmt.Sprintf("ERROR{CALL req=%d} (%s)", req, why), func(x wamp.Message) bool { return isCallError(x, req, "") })
 		d.finalDue[ck{s, req}]++
+	}
+	if isProgressChunk && !w.sess[s].has("caller", "progressive_call_invocations") {
+		// protocol violation by the caller: it alone is aborted (C04 territory)
+		w.killed[s] = ""
+		exp.may(s, "ABORT protocol_violation", func(x wamp.Message) bool { _, ok := x.(*wamp.Abort); return ok })
+		w.st.Label("call_progress_without_feature")
+		return nil
 	}
 	cands := d.resolve(realm, proc)
 	if len(cands) == 0 {
@@ -765,13 +853,6 @@ func (d *dealerPart) onCallMsg(w *World, st *StepRec, s int, realm string, rc *R
 			}
 		}
 	}
-	if isProgressChunk && !caller.has("caller", "progressive_call_invocations") {
-		// protocol violation by the caller: it alone is aborted (C04 territory)
-		w.killed[s] = ""
-		exp.may(s, "ABORT protocol_violation", func(x wamp.Message) bool { _, ok := x.(*wamp.Abort); return ok })
-		w.st.Label("call_progress_without_feature")
-		return nil
-	}
 	// Which callees may be chosen?
 	type cand struct {
 		r   *mReg
@@ -819,6 +900,10 @@ func (d *dealerPart) onCallMsg(w *World, st *StepRec, s int, realm string, rc *R
 					a.r.rrLast = -1
 				}
 				w.st.Label("call_disclose_refused")
+				if isProgressChunk && chosen == nil {
+					// a callee without progressive_call_invocations may be refused for that instead
+					isRefusal = func(x wamp.Message) bool { return isCallError(x, req, "") }
+				}
 				exp.must(s, fmt.Sprintf("ERROR{CALL req=%d option_disallowed.disclose_me}", req), isRefusal)
 				d.finalDue[ck{s, req}]++
 				return nil
